@@ -10,6 +10,7 @@ import MiniMcmcVerif.Driver.C07
 import MiniMcmcVerif.Driver.C10
 import MiniMcmcVerif.Driver.C15
 import MiniMcmcVerif.Driver.C02
+import MiniMcmcVerif.Driver.C03
 
 open MiniMcmcVerif MiniMcmcVerif.Driver
 
@@ -36,6 +37,10 @@ def dispatch (line : String) : String :=
   | "c15r2" :: args => c15r2 args
   | "c15rn" :: args => c15rn args
   | "c02" :: args => c02 args
+  | "c03" :: args => c03 args
+  | "c03t" :: args => c03t args
+  | "c04" :: args => c04 args
+  | "c04f" :: args => c04f args
   | _ => "bad-op"
 
 partial def loop (h : IO.FS.Stream) (out : IO.FS.Stream) : IO Unit := do
